@@ -611,6 +611,7 @@ def makefractalCIJ(mx_lvl, E, sz_cl, seed=None):
     n = 2**mx_lvl
     sz_cl -= 1
 
+    s, CIJ = 2, t  # a single level (n = 2): the template itself
     for lvl in range(1, mx_lvl):
         s = 2**(lvl + 1)
         CIJ = np.ones((s, s))
